@@ -17,6 +17,8 @@ import (
 	vestingtypes "github.com/cosmos/cosmos-sdk/x/auth/vesting/types"
 	banktypes "github.com/cosmos/cosmos-sdk/x/bank/types"
 	govv1 "github.com/cosmos/cosmos-sdk/x/gov/types/v1"
+	govv1beta1 "github.com/cosmos/cosmos-sdk/x/gov/types/v1beta1"
+	paramproposal "github.com/cosmos/cosmos-sdk/x/params/types/proposal"
 	abci "github.com/tendermint/tendermint/abci/types"
 )
 
@@ -33,16 +35,17 @@ type rich struct {
 	ti        int
 	maxT      time.Time
 	// observations of the last step on the primary and on each follower
-	lastBegin     []abci.ResponseBeginBlock
-	lastBeginErr  []error
-	lastTx        []abci.ResponseDeliverTx
-	updatesOK     int
-	updatesReject int
-	burnBlocks    int
-	sigCount      int
-	txCount       int
-	txFailed      int
-	proposals     int
+	lastBegin       []abci.ResponseBeginBlock
+	lastBeginErr    []error
+	lastTx          []abci.ResponseDeliverTx
+	updatesOK       int
+	updatesReject   int
+	burnBlocks      int
+	sigCount        int
+	txCount         int
+	txFailed        int
+	proposals       int
+	legacyProposals int
 }
 
 func newRich(c *fw.Case, record bool) (*rich, error) {
@@ -239,6 +242,20 @@ func (r *rich) traffic(c *fw.Case, intensity int) {
 					}
 				}
 			}
+		}
+	}
+	// ... and a legacy parameter-change proposal (gov v1beta1): x/gov runs its content once at
+	// submission on a branched context, against the x/params subspaces of the node. Those of
+	// the custom modules have had no key table since v1.2.0, so such a proposal is refused -
+	// by every node alike, whatever it went through since InitChain
+	if c.R.Intn(12) == 0 {
+		targets := [][3]string{{"cfevesting", "Denom", `"uc4e"`}, {"cfeminter", "MintDenom", `"uc4e"`}, {"cfedistributor", "SubDistributors", `[]`},
+			{"staking", "MaxValidators", `"101"`}, {"cfevesting", "Unknown", `"1"`}, {"nosuchspace", "Key", `"1"`}}
+		tg := targets[c.R.Intn(len(targets))]
+		content := paramproposal.NewParameterChangeProposal("verif", "legacy parameter change", []paramproposal.ParamChange{paramproposal.NewParamChange(tg[0], tg[1], tg[2])})
+		if sp, err := govv1beta1.NewMsgSubmitProposal(content, sdk.NewCoins(sdk.NewCoin("uc4e", sdk.NewInt(1))), e.n.Delegator.Addr); err == nil {
+			r.deliver(e.n.Delegator, nil, sp)
+			r.legacyProposals++
 		}
 	}
 	if c.R.Intn(5) == 0 {
